@@ -63,7 +63,7 @@ pub fn session(rng: &mut Rng) -> Generated {
         let a = rng.range(1, 50);
         let b = rng.range(1, 50);
         let times = rng.range(0, 3);
-        match rng.below(29) {
+        match rng.below(33) {
             0 => {
                 names.push("early-exit");
                 let limit = rng.range(0, 8);
@@ -482,6 +482,63 @@ pub fn session(rng: &mut Rng) -> Generated {
                          (if (< in{t} 2) (begin (set! in{t} (+ in{t} 1)) (ik{t} (* in{t} 100))) 'stop)",
                         t = t,
                         def = def
+                    ),
+                );
+            }
+            29 | 30 => {
+                // a continuation is a procedure: it can itself be the receiver of call/cc (control
+                // is handed over together with the current continuation, as coroutines do)
+                names.push("continuation-as-receiver");
+                reentry = true;
+                p(
+                    &mut forms,
+                    &format!(
+                        "(procedure? (call/cc (call/cc (lambda (k) k))))
+                         (define resume{t} #f)
+                         (define log{t} '())
+                         (define (producer{t} back) (set! log{t} (cons 'produced log{t})) (back {a}))
+                         (define (consumer{t}) (set! log{t} (cons 'waiting log{t})) (+ 100 (call/cc resume{t})))
+                         (set! resume{t} producer{t})
+                         (consumer{t})
+                         (define k0{t} #f)
+                         (define seen{t} '())
+                         (let ((v (call/cc (lambda (c) (set! k0{t} c) 'first)))) (set! seen{t} (cons (if (procedure? v) 'a-continuation v) seen{t})) (length seen{t}))
+                         (if (< (length seen{t}) 2) (+ 1000 (call/cc k0{t})) 'done)
+                         (list log{t} seen{t})",
+                        t = t,
+                        a = a
+                    ),
+                );
+            }
+            31 | 32 => {
+                // a continuation captured in the key / test / operand position of a derived form is
+                // re-entered with values that select other branches: the key expression is evaluated
+                // once per pass and the branch is chosen afresh from the first clause
+                names.push("capture-in-derived-form-test");
+                reentry = true;
+                let cap = format!("(call/cc (lambda (c) (set! dk{t} c) (set! dcount{t} (+ dcount{t} 1)) 1))", t = t);
+                let body = match rng.below(6) {
+                    0 => format!("(case {cap} ((1) 'one) ((2) 'two) ((3 4) 'three-or-four) (else 'other))", cap = cap),
+                    1 => format!("(case (+ 0 {cap}) ((4) 'four) ((3) 'three) ((2) 'two) ((1) 'one) (else 'other))", cap = cap),
+                    2 => format!("(cond ((= {cap} 1) 'one) ((= dn{t} 1) 'second-clause) (else (list 'else dn{t})))", cap = cap, t = t),
+                    3 => format!("(and {cap} (list 'and-continued dn{t}))", cap = cap, t = t),
+                    4 => format!("(or (= 3 {cap}) (list 'or-continued dn{t}))", cap = cap, t = t),
+                    _ => format!("(let* ((a {cap}) (b (* a 10))) (when (> a 0) (list a b)))", cap = cap),
+                };
+                p(
+                    &mut forms,
+                    &format!(
+                        "(define dk{t} #f)
+                         (define dn{t} 0)
+                         (define dcount{t} 0)
+                         (define (dpick{t}) {body})
+                         (list (dpick{t}))
+                         (if (< dn{t} 3) (begin (set! dn{t} (+ dn{t} 1)) (dk{t} (+ dn{t} 1))) 'stop)
+                         (if (< dn{t} 3) (begin (set! dn{t} (+ dn{t} 1)) (dk{t} (+ dn{t} 1))) 'stop)
+                         (if (< dn{t} 3) (begin (set! dn{t} (+ dn{t} 1)) (dk{t} (+ dn{t} 1))) 'stop)
+                         (list dn{t} dcount{t})",
+                        t = t,
+                        body = body
                     ),
                 );
             }
